@@ -326,6 +326,8 @@ def _always_raises(fn):
                 nm = _d(e)
             if nm and nm.split(".")[-1] == "NotImplementedError":
                 return False  # an abstract method: the call dispatches to an override
+    if any(isinstance(x, (ast.Return, ast.Yield, ast.YieldFrom)) for x in astq.walk_no_nested(fn)):
+        return False  # some path hands a value back
     return bool(body) and block_always_raises(body)
 
 
